@@ -1242,7 +1242,9 @@ func NewEngine(conf Config) *Engine {
 
 	g.OnStop(func() {
 		engine._onStop()
-		g.Execute = func(f func()) {}
+		// the pool is gone: what is still submitted (MustExecute always
+		// runs its job) gets a goroutine of its own, like the client side.
+		g.Execute = goExecutor
 		if messageHandlerExecutePool != nil {
 			messageHandlerExecutePool.Stop()
 		}
